@@ -45,6 +45,9 @@ pub trait FactoryModule:
         let minter_bytes;
 
         if initial_supply > 0 {
+            // The service is only the temporary minter: it has to be able to hand the roles over after minting
+            require!(minter != own_address, "Invalid minter");
+
             minter_bytes = own_address.as_managed_buffer()
         } else if !minter.is_zero() {
             require!(minter != own_address, "Invalid minter");
